@@ -113,7 +113,7 @@ def main(tier, replay=None):
     nspec = 0
 
     def viol(key, what, case, **kw):
-        c.violation(key, what, dict({"case": case, "rerun": "/verif/build/bin/c13 -replay '%s'" % case}, **kw))
+        c.violation(key, what, dict({"case": case, "rerun": outs[0] + " -replay '%s'" % case}, **kw))
 
     # the word list in force is the BIP-39 English list
     for l in dist.splitlines():
